@@ -31,7 +31,7 @@ class SimFile:
     def write(self, data):
         if self.closed:
             raise ValueError("I/O operation on closed file")
-        if "w" not in self.mode and "a" not in self.mode:
+        if not any(c in self.mode for c in "wax+"):
             raise io.UnsupportedOperation("not writable")
         if isinstance(data, str):
             if self.binary:
@@ -46,7 +46,7 @@ class SimFile:
         kind = f.get("kind")
         if kind in ("enospc", "crash") and at is not None and self.written + len(raw) > at:
             room = max(0, at - self.written)
-            self.disk._append(self.path, raw[:room])
+            self.disk._append(self.path, raw[:room], self._wpos())
             self.written += room
             self.disk.fired[kind] = self.disk.fired.get(kind, 0) + 1
             f["fired"] = True
@@ -58,9 +58,13 @@ class SimFile:
             self.disk.files[self.path] = self.disk.files[self.path][:keep]
             self.disk.crashed = True
             raise SimCrash(f"crash at byte {at} of {self.path}, {keep} bytes survive")
-        self.disk._append(self.path, raw)
+        self.disk._append(self.path, raw, self._wpos())
         self.written += len(raw)
         return len(data)
+
+    def _wpos(self):
+        # write position: end of file except for "r+" handles, which start at 0
+        return self.written if ("+" in self.mode and "r" in self.mode) else None
 
     def flush(self):
         pass
@@ -158,8 +162,12 @@ class SimDisk:
         self.opens = []
         self.crashed = False
 
-    def _append(self, path, raw):
-        self.files[path] = self.files.get(path, b"") + raw
+    def _append(self, path, raw, at=None):
+        cur = self.files.get(path, b"")
+        if at is None or at >= len(cur):
+            self.files[path] = cur + raw
+        else:                                  # "r+": overwrite in place, keep any tail
+            self.files[path] = cur[:at] + raw + cur[at + len(raw):]
 
     def arm(self, path, fault):
         self.armed[str(path)] = dict(fault)
@@ -181,8 +189,12 @@ class SimDisk:
         if key is not None:
             fault = self.armed.pop(key)
         self.opens.append((path, mode))
-        if "w" in mode:
+        if "x" in mode and path in self.files:
+            raise FileExistsError(errno.EEXIST, "File exists (simulated)", path)
+        if "w" in mode or "x" in mode:
             self.files[path] = b""           # opening for write truncates
+        elif "a" in mode:
+            self.files.setdefault(path, b"")
         elif "r" in mode:
             if path not in self.files:
                 raise FileNotFoundError(errno.ENOENT, "No such file (simulated)", path)
